@@ -121,7 +121,7 @@ theorem rchunkStep_p3 {s : RespState} {cs : ChunkState} {rem : Bytes} {e : Fail}
 
 theorem respInv_new : RespInv Response.new := by simp [RespInv, Response.new]
 
-theorem respSys_lawful : respSys.Lawful RespInv where
+theorem respSys_lawful (hl : Option Nat) : (respSys hl).Lawful RespInv where
   pos := by intro s n; simp only [respSys]; cases s.phase <;> simp [respRank]
   mono := by intro s n m _; simp [respSys]
   le := by
@@ -151,7 +151,7 @@ theorem respSys_lawful : respSys.Lawful RespInv where
     · rename_i hph
       simp only [hph] at hI
       unfold rhdrStep at h
-      cases hp : Headers.parse none s.headers b with
+      cases hp : Headers.parse hl s.headers (stripDanglingCr b) with
       | error e => simp [hp] at h
       | ok r =>
         obtain ⟨hs, st, c0⟩ := r
@@ -220,7 +220,7 @@ theorem respSys_lawful : respSys.Lawful RespInv where
     · exact absurd rfl (rfixedStep_ok h).2.1
     · rename_i hph
       unfold rhdrStep at h
-      cases hp : Headers.parse none s.headers b with
+      cases hp : Headers.parse hl s.headers (stripDanglingCr b) with
       | error e => simp [hp] at h
       | ok r =>
         obtain ⟨hs, st, c0⟩ := r
